@@ -255,6 +255,9 @@ def _templates():
     add("linalg_norm_keepdim_flat", 1, r2, lambda v, m: torch.linalg.vector_norm(v[0], keepdim=True), "dim=None/keepdim")
     add("signbit_0d", 1, f1, lambda v, m: torch.signbit(v[0].sum()), "0-d")
     add("flatten_0d_sum", 1, f1, lambda v, m: torch.flatten(v[0].sum()), "0-d")
+    # float64: the promotion pass turns the scalar bounds into tensors -> clamp.Tensor -> Max/Min -> fused to Clip by optimize=True
+    add("two_clamps_same_input_f64", 1, lambda v: v[0].dtype == torch.float64, lambda v, m: torch.clamp(v[0], -1.0, 2.0) + torch.clamp(v[0], -0.5, 0.5), "min-max-twice")
+    add("widen_then_two_clamps", 1, lambda v: v[0].dtype == torch.float32, lambda v, m: (lambda d: torch.clamp(d, -1.0, 2.0) + torch.clamp(d, -0.5, 0.5))(v[0].to(torch.float64)), "min-max-twice")
     _T = T
     return T
 
